@@ -59,7 +59,8 @@ def arg_list(v):
 
 
 def norm_row(r, extra_str=()):
-    out = {"id": as_int(r.get("stmt_id")), "parent": as_int(r.get("parent_stmt_id")), "op": as_str(r.get("operation"))}
+    out = {"id": as_int(r.get("stmt_id")), "parent": as_int(r.get("parent_stmt_id")), "op": as_str(r.get("operation")),
+           "line": as_int(r.get("start_row"))}
     for f in INT_FIELDS:
         out[f] = as_int(r.get(f))
     for f in STR_FIELDS + tuple(extra_str):
